@@ -6,7 +6,7 @@ from props.C08 import tr_case
 
 IMPORTS = ["Base", "Harness", "TopRankModel", "Check_C08"]
 CHECK_FN = "check_C08"
-RULE = ("inputs as in C08 with 1..4 queries (m > 1 in most cases) and 1..9 targets; `updown list` (the real command) derives "
+RULE = ("inputs as in C08 (a quarter of them with gaps, N or IUPAC codes in the reference) with 1..4 queries (m > 1 in most cases) and 1..9 targets; `updown list` (the real command) derives "
         "the CSV of the query and of the target alignment; `updown topranking` is then run in all four csv/fasta "
         "combinations under the same option set; the four outputs must be byte-identical, one row per query in query-file "
         "order; the fasta/fasta run is also compared with the Coq model. Non-trivial: m > 1. Distinct by content.")
@@ -20,6 +20,13 @@ def generate(ctx):
     n = 50 if ctx.tier == "quick" else 800
     for cid in range(n):
         ref, queries, targets = udgen.make_inputs(rng, nq=rng.choice([1, 2, 2, 3, 4]))
+        if cid % 4 == 3:
+            # "for every reference": gaps, N and IUPAC codes in the reference too (updown list only warns about them);
+            # both commands read the reference themselves and must read it alike
+            r = list(ref)
+            for _ in range(rng.randint(1, 3)):
+                r[rng.randrange(len(r))] = rng.choice("--NRY")
+            ref = "".join(r)
         o = udgen.random_opts(rng, len(targets))
         c = tr_case(cid, ref, queries, targets, o, rng, {"kind": "fasta/fasta", "nontrivial": len(queries) > 1})
         cs.append(c)
